@@ -68,4 +68,36 @@ def handleRun : List String → String
       | .wrapc => "wrapc" | .wrapf => "wrapf" | .util => "util" | .wrapp => "wrapp" | .wrapl => "wrapl"))
   | _ => "bad-op"
 
+def decOpt (c : Char) : Option Bool := if c == '1' then some true else if c == '0' then some false else none
+
+/-- one options block: 4 chars over `0 1 -` in the order fortran c lua python -/
+def decBlock (s : String) : WrapOpts :=
+  match s.toList.map decOpt with
+  | [f, c, l, p] => ⟨f, c, l, p⟩
+  | _ => ⟨none, none, none, none⟩
+
+/-- `init <block innermost> ... <block outermost>` -> flags of `WrapFlags(options)` -/
+def handleInit (bs : List String) : String := encWF (initFlags (bs.map decBlock))
+
+def decKind (s : String) : Option CloneKind :=
+  if s == "cxx_template" then some .cxxTemplate
+  else if s == "has_default_arg" then some .defaultArg
+  else if s == "return_this" then some .returnThis
+  else if s == "arg_to_cfi" then some .argToCfi
+  else if s == "arg_to_buffer" then some .argToBuffer
+  else if s == "fortran_generic" then some .fortranGeneric
+  else none
+
+/-- `step <kind> <nclones> <fires resultByValue vectorArg resultAsArg as 4 bits> <newC bits or -> <d> <node>`
+    -> node flags afterwards followed by the clones' flags -/
+def handleStep : List String → String
+  | [k, n, facts, newc, d, node] =>
+    match decKind k, facts.toList.map (· == '1') with
+    | some kind, [fires, rbv, vec, raa] =>
+      let v : Variant := ⟨n.toNat!, fires, rbv, vec, raa, if newc == "-" then [] else newc.toList.map (· == '1')⟩
+      let r := step kind v (decWF d) (decWF node)
+      " ".intercalate (encWF r.1 :: r.2.map encWF)
+    | _, _ => "bad-op"
+  | _ => "bad-op"
+
 end Driver
